@@ -21,11 +21,11 @@ const haveBubble = true
 // after Park writes the request goroutine parks (durably, on a bubble
 // channel) until the plan resumes it.
 type parkWriter struct {
-	rec    *httptest.ResponseRecorder
-	park   int
-	writes int
-	parked chan struct{}
-	resume chan struct{}
+	rec     *httptest.ResponseRecorder
+	park    int
+	writes  int
+	parked  chan struct{}
+	resume  chan struct{}
 	didPark bool
 }
 
